@@ -16,6 +16,7 @@ import (
 
 	"github.com/privacybydesign/gabi/big"
 	"github.com/privacybydesign/gabi/gabikeys"
+	"github.com/privacybydesign/gabi/internal/common"
 	"github.com/privacybydesign/gabi/internal/verif/vkit"
 )
 
@@ -221,6 +222,97 @@ func c03Run(t *testing.T, sub string, keys []string, maxLen int, qb, tb time.Dur
 							verify("equaliser:"+variant, alt, labels, true)
 						}
 					}
+				}
+			}
+		}
+	}
+}
+
+// TestVerifC03RelatedSecrets: colluders who pool their secrets choose them (and the secret-key
+// randomisers) related by a linear map f, so that the secret-key responses are related by f as well:
+// f(x) = -x, 2x, 256x.  Each member verifies on its own and the list verifies under distinct labels;
+// under one label (or none) it must be rejected: the linking check has to compare the responses as
+// integers, not their magnitudes, prefixes or lengths.  Negative numbers do not travel over JSON, so
+// the lists are handed over as Go objects.
+func TestVerifC03RelatedSecrets(t *testing.T) {
+	r := vkit.Start(t, "C03", "related-secrets", 120*time.Second, 600*time.Second)
+	defer r.Finish()
+	r.Rule = "first member in {disclosure proof, issuance commitment} about secret s with randomiser r, second member an issuance commitment about f(s) with randomiser f(r) for f in {-x, 2x, 256x, x+1 (control: unrelated responses)}, keys toyA / k1024a (same and different keys), Go objects handed over directly; non-trivial = distinct (first kind, f, keys); oracle: each member verifies on its own and the list verifies under distinct labels (else vacuous), and it is rejected with no labels and with equal labels"
+	vfInstallEnv(t, "C03/related", r.Seed)
+	ctx, nonce := vfContext, vfNonce
+	maps := []struct {
+		name string
+		f    func(x *big.Int) *big.Int
+	}{
+		{"-x", func(x *big.Int) *big.Int { return new(big.Int).Neg(x) }},
+		{"2x", func(x *big.Int) *big.Int { return new(big.Int).Lsh(x, 1) }},
+		{"256x", func(x *big.Int) *big.Int { return new(big.Int).Lsh(x, 8) }},
+	}
+	for _, kp := range [][2]string{{"toyA", "toyA"}, {"toyA", "toyB"}, {"k1024a", "k1024a"}, {"k1024a", "k1024b"}} {
+		for _, first := range []string{"disclosure", "issuance"} {
+			for _, m := range maps {
+				if _, mine := r.Next(); !mine {
+					continue
+				}
+				k0, k1 := vfK(kp[0]), vfK(kp[1])
+				sec := vfTag("c03-rel-secret")
+				rnd, err := common.RandomBigInt(k0.Pk.Params.LmCommit - 9)
+				if err != nil {
+					r.HarnessError("%v", err)
+					return
+				}
+				desc := fmt.Sprintf("first=%s f=%s keys=%v", first, m.name, kp)
+				r.Eval()
+				r.Nontrivial(desc)
+				var b0 ProofBuilder
+				if first == "disclosure" {
+					b0, err = vfMint(k0, sec, []*big.Int{vfInt(11), vfInt(22)}, 3).CreateDisclosureProofBuilder([]int{1}, nil, false)
+				} else {
+					b0, err = NewCredentialBuilder(k0.Pk, ctx, sec, vsNonce2, nil, nil)
+				}
+				if err != nil {
+					r.HarnessError("%v", err)
+					return
+				}
+				b1, err := NewCredentialBuilder(k1.Pk, ctx, m.f(sec), vsNonce2, nil, nil)
+				if err != nil {
+					r.HarnessError("%v", err)
+					return
+				}
+				var list ProofList
+				pan, msg := vkit.Guard(func() {
+					c0, err := b0.Commit(map[string]*big.Int{"secretkey": rnd})
+					if err != nil {
+						panic(err)
+					}
+					c1, err := b1.Commit(map[string]*big.Int{"secretkey": m.f(rnd)})
+					if err != nil {
+						panic(err)
+					}
+					ch := createChallenge(ctx, nonce, append(c0, c1...), false)
+					list = ProofList{b0.CreateProof(ch), b1.CreateProof(ch)}
+				})
+				if pan {
+					r.Count("related-secret list not constructible: "+msg, 1)
+					continue
+				}
+				pks := []*gabikeys.PublicKey{k0.Pk, k1.Pk}
+				var distinct, unlabeled, equal bool
+				if pan, _ := vkit.Guard(func() {
+					distinct = list.Verify(pks, ctx, nonce, false, []string{"a", "b"})
+					unlabeled = list.Verify(pks, ctx, nonce, false, nil)
+					equal = list.Verify(pks, ctx, nonce, false, []string{"kss", "kss"})
+				}); pan {
+					r.Count("panic during verification (judged by C08)", 1)
+					continue
+				}
+				r.Outcome(fmt.Sprintf("first=%s:f=%s:distinct-labels=%v:no-labels=%v:equal-labels=%v", first, m.name, distinct, unlabeled, equal))
+				if !distinct {
+					r.Count("vacuity: related-secret list does not verify under distinct labels", 1)
+					continue
+				}
+				if unlabeled || equal {
+					r.Violate("C03|different-secrets-accepted-under-one-label|related-secrets:"+m.name, fmt.Sprintf("%s: proofs about s and f(s) accepted as linked (no labels: %v, equal labels: %v)", desc, unlabeled, equal), desc)
 				}
 			}
 		}
